@@ -157,4 +157,21 @@ def overlap (h : Heap) (roots : Roots) (base : Addr) : Nat :=
   let seen := rs.foldl (fun s a => visit h (h.length + 2) a s) []
   (seen.filter (fun a => a < base)).length
 
+/-! ### settings: what equivalence and isolation demand -/
+
+/-- * a setting a script's RESULT depends on must be in force on the copy (equivalence: "every
+      script produces the same result on the copy"): the stack depth limit (where a deep recursion
+      throws RangeError), the stack trace limit (the text of `Error().stack`), the random source
+      (`Math.random`);
+    * the interrupt channel is how the embedder reaches ONE runtime from outside: sharing it would
+      let a script running on the copy swallow (and be unwound by) a function sent to the template –
+      isolation demands that it is NOT carried;
+    * the debugger handler is host code with no script-visible result: unconstrained. -/
+def Spec.carried : Setting → Option Bool
+  | .stackLimit => some true
+  | .traceLimit => some true
+  | .random => some true
+  | .debugger => none
+  | .interrupt => some false
+
 end OttoVerif.C17
